@@ -91,7 +91,8 @@ class GenBinding:
         if not full:
             return [base]
         again = getattr(mab, "_verif_last_fit", None)
-        refit = [[{"op": "fit", "rows": list(again)}] + q] if again else []     # the caller fits the same arrays once more
+        # the caller fits everything presented since the last fit once more (the same array objects if it was one call)
+        refit = [[{"op": "fit", "rows": list(again)}] + q] if again and len(again) >= self.min_fit else []
         return refit + [base,
                 [{"op": "warm_start", "q": [1, 2]}, {"op": "cold_arms"}] + q,
                 [{"op": "partial_fit", "rows": [9, 10]}] + q,
@@ -279,8 +280,11 @@ class GenBinding:
         op = label["op"]
         try:
             if op in ("fit", "partial_fit"):
-                if op == "fit":
+                # the rows presented since the last fit (a function of the specification state, whatever the chunking)
+                if op == "fit" or not getattr(mab, "_is_initial_fit", False):
                     mab._verif_last_fit = list(label["rows"])
+                else:
+                    mab._verif_last_fit = list(getattr(mab, "_verif_last_fit", [])) + list(label["rows"])
                 return "ok", getattr(mab, op)(*self.remember(self.batch(label["rows"], mab)))
             if op == "add_arm":
                 if self.addarm_bin and not self.preconv:
